@@ -14,8 +14,8 @@ def worker(case, led):
 
 def check(run):
     from props import C13_extra
-    nseeds = 3 if run.tier == "quick" else 12
-    length = 30 if run.tier == "quick" else 60
+    nseeds = 2 if run.tier == "quick" else 12
+    length = 25 if run.tier == "quick" else 60
     cases = [(name, n, run.seed * 1000 + s, length, run.tier) for name in ("spinqn", "holstein", "spin2qn", "spin") for n in (2, 3, 4) for s in range(nseeds)]
     run_cases(run, worker, cases)
     C13_extra.check(run)
